@@ -1205,6 +1205,15 @@ SyntaxVisitor::Action TypeChecker::visitPrefixUnaryExpression(
             break;
         }
         case SyntaxKind::AmpersandToken: {
+            // The operand may be a function designator (6.5.3.2-1), whose
+            // type has already been converted to a pointer to the function.
+            if (ty_->kind() == TypeKind::Pointer
+                    && ty_->asPointerType()->referencedType()->kind() == TypeKind::Function
+                    && semaModel_->typeInfoOf(node->expression()).undergoneConversion()
+                            == TypeInfo::UndergoneConversion::Yes) {
+                ty = ty_;
+                break;
+            }
             std::unique_ptr<PointerType> ptrTy(new PointerType(ty_));
             ty = semaModel_->keepType(std::move(ptrTy));
             break;
